@@ -153,6 +153,29 @@ let has_composite_conflict (d : document) : bool =
         key a n = key a' n' && (n <> n' || sorted args <> sorted args')
       | _ -> false) fs) fs
 
+(* Go's message "objects of type X can never be of type Y" on a spec-valid document: true when X is
+   an object type that does not overlap Y although one of the interfaces X implements does -- the
+   signature of an inline fragment on that interface having been flattened into X, whose field has
+   a narrower (covariant) type *)
+let possible_ml (s : schema) (n : name) : name list =
+  match find_type n s.s_types with
+  | Some t -> (match t.td_kind with
+      | KObject -> [n]
+      | KUnion -> t.td_members
+      | KInterface -> List.filter_map (fun o -> if o.td_kind = KObject && List.mem n o.td_implements then Some o.td_name else None) s.s_types
+      | _ -> [])
+  | None -> []
+let overlap_ml s a b = List.exists (fun x -> List.mem x (possible_ml s b)) (possible_ml s a)
+let narrowing_flag (s : schema) (msg : string) : bool =
+  let re = Str.regexp "objects of type \"\\([A-Za-z0-9_]+\\)\" can never be of type \"\\([A-Za-z0-9_]+\\)\"" in
+  try
+    ignore (Str.search_forward re msg 0);
+    let x = b (Str.matched_group 1 msg) and y = b (Str.matched_group 2 msg) in
+    (match find_type x s.s_types with
+     | Some t -> t.td_kind = KObject && not (overlap_ml s x y) && List.exists (fun i -> overlap_ml s i y) t.td_implements
+     | None -> false)
+  with Not_found -> false
+
 let rec show_sel = function
   | SField (a, n, args, _, ss) ->
     (match a with Some x -> string_of_bytes x ^ ":" | None -> "") ^ string_of_bytes n ^
@@ -166,7 +189,7 @@ let handle (x : sexp) : (string * string) list =
   | L [A "c04schema"; A id; sch] -> Hashtbl.replace schemas id (schema_ext sch); []
   | L [A "c04"; _; _; _; _; L [A "go"; _; S "panic"; _; S msg]] ->
     [("specfail", "total: the admission sequence panicked: " ^ msg)]
-  | L [A "c04"; A id; L (A "meta" :: A kind :: S op :: _); doc; opname; L [A "go"; acc; S stage; S fam; _]] ->
+  | L [A "c04"; A id; L (A "meta" :: A kind :: S op :: _); doc; opname; L [A "go"; acc; S stage; S fam; S gomsg]] ->
     let s = try Hashtbl.find schemas id with Not_found -> raise (Failure ("unknown schema " ^ id)) in
     let d = doc_of doc in
     let opn = opt_name opname in
@@ -191,7 +214,8 @@ let handle (x : sexp) : (string * string) list =
       [("specfail", Printf.sprintf "accept_iff_valid (go=%s spec=%s rules=[%s] kind=%s op=%s stage=%s family=%s eff=%s erules=[%s])%s"
           (if go then "accept" else "reject") (if spec then "valid" else "invalid") (show_rules d) kind op stage fam eff (show_rules ed)
           ((if has_reordered_args d then " reordered-arguments" else "") ^
-           (if has_composite_conflict d then " composite-conflict" else "")))]
+           (if has_composite_conflict d then " composite-conflict" else "") ^
+           (if narrowing_flag s gomsg then " covariant-narrowing" else "")))]
   | L [A "c04merge"; A id; before; after] ->
     let d = doc_of before in
     (match after with
